@@ -7,7 +7,7 @@ import re
 CLAUSE = re.compile(r'^(requires|ensures|invariant|invariant_except_break|decreases|recommends|returns|opens_invariants|no_unwind)\b')
 OK_START = re.compile(r'^(let ghost\b|let tracked\b|assert\b|assert_by\b|assume\b|proof \{|proof\{|reveal\b|broadcast use\b|#\[|//|\}|by \(|by \{|\)|'
                       r'(pub )?(open |closed |uninterp )?(spec|proof) fn\b|(pub )?(broadcast )?(axiom|proof) fn\b|&&&|\|\|\||==>|<==>|forall\||exists\||else\b|match\b|Some\(|None\b|&&|\|\||\+|-|\*|,)')
-INLINE_OK = re.compile(r'^\s*(\(\s*\w+\s*:\s*\(?|\)|\w+\s*:\s*\(?|:\s*[\w:<>&\' ]+|->\s*\(\w+: [\w<>: ]+\)\s*requires .*ensures .*\{|\}|\.iter\(\))\s*$')
+INLINE_OK = re.compile(r'^\s*(\(\s*\w+\s*:\s*\(?|\)|\w+\s*:\s*\(?|:\s*[\w:<>&\' ]+|->\s*\(\w+: [\w<>: ]+\)\s*(requires .*)?ensures .*\{|\}|\.iter\(\))\s*$')
 
 
 STMT = re.compile(r'^(let ghost\b|let tracked\b|assert\b|assert_by\b|assume\b|proof ?\{|reveal\b|broadcast use\b)')
